@@ -49,7 +49,7 @@ Value& COSExpression::value(Context & ctx) const
     break;
   case Type::INTEGER:
     if (val.isNull())
-      return val;
+      break;
     v = Value(Numeric(std::cos(*val.integer())));
     break;
   case Type::NUMERIC:
